@@ -83,6 +83,9 @@ struct caption {
 	int			itv_count;
 
 	int			info_cycle[2];
+
+	/* XDS network name of the station announced last. */
+	signed char		xds_net_name[64];
 };
 
 /* Public */
